@@ -334,7 +334,7 @@ func Reachable(from *ssa.BasicBlock, stop map[*ssa.BasicBlock]bool) map[*ssa.Bas
 // PostDom computes the post-dominator sets of fn's blocks with respect to all exits (Return/Panic blocks).
 // pd[b][c] == true means c post-dominates b (every path from b to an exit passes through c).
 type PostDom struct {
-	fn  *ssa.Function
+	fn   *ssa.Function
 	sets []map[int]bool
 }
 
